@@ -110,6 +110,14 @@ def make_concrete(spec, hint, model):
         return spec.value
     if isinstance(spec, Obj):
         obj = object.__new__(spec.cls)
+        import logging as _lg
+        null = _lg.getLogger("verif.null")
+        null.disabled = True
+        for lname in ("_logger", "_communication_logger", "_bytestream_logger"):
+            try:
+                object.__setattr__(obj, lname, null)   # logging is dropped by extraction (A-LOG); replays need the objects
+            except Exception:
+                pass
         for f, s in spec.fields.items():
             object.__setattr__(obj, f, make_concrete(s, f"{hint}.{f}", model))
         return obj
@@ -398,6 +406,11 @@ def replay(ccls, case, model):
             args[p] = make_concrete(specs[p], p, model)
         else:
             args[p] = _default_for(fn, info, p)
+    import contextlib
+    ctx = contextlib.nullcontext()
+    prep = getattr(ccls, "replay_prepare", None)
+    if prep is not None:
+        ctx = prep(args, model) or ctx
     try:
         old = types.SimpleNamespace(**copy.deepcopy(args))
     except Exception:
@@ -423,8 +436,9 @@ def replay(ccls, case, model):
 
     import threading as _th
     th = _th.Thread(target=_call, daemon=True)
-    th.start()
-    th.join(getattr(ccls, "replay_timeout", 5.0))
+    with ctx:
+        th.start()
+        th.join(getattr(ccls, "replay_timeout", 5.0))
     if th.is_alive():
         return {"status": "blocked", "why": "the real function did not return within the replay timeout (it waits for "
                 "another thread; the environment of the counter-model cannot be replayed by a plain call)", "inputs": shown}
@@ -482,5 +496,6 @@ def _show(v, depth=0):
     if isinstance(v, dict) and depth < 3:
         return {str(k): _show(x, depth + 1) for k, x in list(v.items())[:32]}
     if hasattr(v, "__dict__") and depth < 3:
-        return {"class": type(v).__name__, "fields": {k: _show(x, depth + 1) for k, x in list(vars(v).items())[:16]}}
+        return {"class": type(v).__name__, "fields": {k: _show(x, depth + 1) for k, x in list(vars(v).items())[:16]
+                                                        if not k.endswith("logger")}}
     return repr(v)[:200]
